@@ -96,7 +96,9 @@ static void *worker(void *arg)
 	return NULL;
 }
 
-static void body(void)
+static int T2, K2; /* optional second team (other threads, other size) after the first one finished a multiple of 4 uses */
+
+static void run_team(void)
 {
 	global_config.n_threads = (unsigned)T;
 	int ids[RS_MAXT];
@@ -107,6 +109,23 @@ static void body(void)
 	for(int t = 0; t < T; ++t)
 		if(returned[t] != K)
 			rs_fail("thread %d completed %d of %d uses", t, returned[t], K);
+}
+
+static void body(void)
+{
+	run_team();
+	if(T2) {
+		/* what two consecutive simulation runs of one process with different thread counts do */
+		T = T2;
+		K = K2;
+		memset(entered, 0, sizeof entered);
+		memset(returned, 0, sizeof returned);
+		memset(inside, 0, sizeof inside);
+		memset(arrivals, 0, sizeof arrivals);
+		memset(leaders, 0, sizeof leaders);
+		memset(returns, 0, sizeof returns);
+		run_team();
+	}
 }
 
 static uint64_t digest(void)
@@ -151,6 +170,8 @@ static void configure(int argc, char **argv)
 	T = (int)rs_param_int("T", 2);
 	K = (int)rs_param_int("K", 3);
 	cyclic = (int)rs_param_int("cyclic", 0);
+	T2 = (int)rs_param_int("T2", 0);
+	K2 = (int)rs_param_int("K2", 4);
 }
 
 static const struct rs_harness H = {
